@@ -11,6 +11,7 @@ import (
 	"encoding/json"
 	"fmt"
 	"os"
+	"time"
 )
 
 type vfModelFile struct {
@@ -143,7 +144,7 @@ func vfNativeClock() uint32 {
 	return vfClockBase + uint32(vfVal(fmt.Sprintf("clkd%d", vfClockReads)))
 }
 
-func vfPanicsOff()                  {}
+func vfPanicsOff() {}
 
 // vfObserve records a value; gse evaluates the same term under the model and the
 // check compares the two (translator validation).
@@ -164,11 +165,37 @@ func (vfRandReader) Read(p []byte) (int, error) {
 	return len(p), nil
 }
 
+// vfRecentMilli: the time of the encoder's previous packet. gse: arbitrary; native: taken
+// from the model relative to the real clock, so that "continuous or not" replays faithfully.
+func vfRecentMilli(name string) int64 {
+	gap := int64(vfVal("unixms1")) - int64(vfVal(name))
+	if gap < 0 || gap > 1000 {
+		gap = 1000
+	}
+	return time.Now().UnixMilli() - gap
+}
+
+// vfBeforeEncode: called before every fecEncoder.encode in harnesses. Native: sleeps when the
+// model says this packet follows its predecessor by at least the encoder's latency bound.
+func vfBeforeEncode() {
+	vfUnixCalls++
+	if vfUnixCalls > 1 {
+		a := vfVal(fmt.Sprintf("unixms%d", vfUnixCalls-1))
+		b := vfVal(fmt.Sprintf("unixms%d", vfUnixCalls))
+		if b-a >= maxFECEncodeLatency {
+			time.Sleep((maxFECEncodeLatency + 50) * time.Millisecond)
+		}
+	}
+}
+
+var vfUnixCalls int
+
 func vfNativeSetup() {
+	vfUnixCalls = 0
 	SetEntropy(vfRandReader{})
 }
 
-func vfTier() int                   { return vfTierLevel }
+func vfTier() int { return vfTierLevel }
 
 func vfJournalStart() {}
 func vfJournalStop()  {}
